@@ -528,7 +528,10 @@ def scen_sync(env, cfg):
     slots = [int(c) for c in pattern]
     wave = [b for b in slots for _ in range(sps)]
     l = len(wave)
-    if cfg.get('a') is not None:
+    idt = cfg.get('idtype')
+    if idt:
+        a, c0 = int(cfg['a']), int(cfg['c'])        # raw integer counts kept in a narrow dtype (int8 scope samples)
+    elif cfg.get('a') is not None:
         a, c0 = env.const(cfg['a']), env.const(cfg['c'])
     else:
         a = env.real('a', 0.5, 4)
@@ -539,7 +542,9 @@ def scen_sync(env, cfg):
     eps = a * env.const(cfg.get('noise', '0.02'))
     win = cfg.get('win', 0)
     W = cfg.get('wlen', 4)
-    if cfg.get('a') is not None:
+    if idt:
+        noise = [0] * (2 * l)            # concrete counts: integer unknowns inside std() take the solver past its budget (stated in BOUNDS)
+    elif cfg.get('a') is not None:
         noise = [env.real(f'e[{k}]', -eps, eps) if win <= k < win + W else 0 for k in range(2 * l)]
     else:
         noise = [env.real(f'e[{k}]', None, None) if win <= k < win + W else 0 for k in range(2 * l)]
@@ -550,8 +555,8 @@ def scen_sync(env, cfg):
     for k, b in enumerate(clean):
         e = noise[k] if k < len(noise) else 0
         rx.append(a * b + c0 + e)
-    tx = T.binary_sequence(slots) if form == 'es' else env.arr(slots)
-    arg = T.electrical_signal(rx) if form == 'es' else env.arr(rx)
+    tx = T.binary_sequence(slots) if form == 'es' else env.arr(slots, dtype='uint8') if cfg.get('idtype') else env.arr(slots)
+    arg = T.electrical_signal(rx) if form == 'es' else env.arr(rx, dtype=idt) if idt else env.arr(rx)
     snap = env.snap(arg.signal if form == 'es' else arg)
     if form == 'es':
         sig, i = Lb.SYNC(arg, tx)
@@ -638,5 +643,7 @@ def configs(tier):
                     out.append((f'sync-{ptn}-sps{sps}-d{d}-a{a_}-c{c_}-win{win}', scen_sync,
                                 dict(pattern=ptn, sps=sps, d=d, form='es', a=a_, c=c_, win=win), {}))
         out.append((f'sync-{ptn}-sps{sps}-ndarray', scen_sync, dict(pattern=ptn, sps=sps, d=1, form='ndarray', a='2', c='0.5', win=1), {}))
+    for d in ((0, 3) if q else (0, 1, 3, 6)):
+        out.append((f'sync-1011000-sps1-uint8-counts-d{d}', scen_sync, dict(pattern='1011000', sps=1, d=d, form='ndarray', a='100', c='20', win=d, idtype='uint8'), {}))
     out.append(('sync-reject', scen_sync_reject, {}, {}))
     return out
